@@ -38,7 +38,7 @@ class Unsupported(Exception):
 
 class St:
     __slots__ = ("h", "last", "prev", "landed", "env", "facts", "pend", "ph", "stack", "kind", "ls", "events", "order", "emits",
-                 "transferred", "minh")
+                 "transferred", "minh", "od")
 
     def __init__(self):
         self.h = Lin(0)
@@ -56,6 +56,7 @@ class St:
         self.order = ()
         self.emits = ()
         self.transferred = frozenset()
+        self.od = Lin(0)            # the compiler's own count of pending operands (CompilationScope.operand_depth), relative
         self.minh = Lin(0)          # lowest height any emitted instruction reaches into, relative to the start of the construct
 
     def copy(self):
@@ -72,7 +73,7 @@ class St:
                 tuple(sorted((k, repr(v)) for k, v in self.env.items())),
                 tuple(sorted((k, repr(v)) for k, v in self.facts.items())), tuple(sorted(self.pend)),
                 tuple(sorted((k, repr(v)) for k, v in self.ph.items())), repr(self.stack), self.kind, self.ls, self.events, self.order,
-                self.emits, tuple(sorted(self.transferred)), self.minh.key())
+                self.emits, tuple(sorted(self.transferred)), self.minh.key(), self.od.key())
 
 
 UNK = ("unk",)
@@ -169,7 +170,16 @@ class Engine:
                             out.append((ctl, s2, val))
                             continue
                         if s.get("els") is not None:
-                            raise Unsupported("let-else")
+                            # let PAT = init else { diverges }
+                            for s3, matched in self.match_pat(s["pat"], val, s2, s["init"]):
+                                if matched:
+                                    nxt.append(s3)
+                                else:
+                                    for ctl2, s4, v4 in self.block(s["els"], s3):
+                                        if ctl2 == "n":
+                                            raise Unsupported("let-else whose else block falls through")
+                                        out.append((ctl2, s4, v4))
+                            continue
                         self.bind(s["pat"], val, s2)
                         nxt.append(s2)
                 else:
@@ -327,6 +337,8 @@ class Engine:
             return [("n", st, ("loopstack",))]
         if txt.endswith(".is_filter") and txt.startswith("self.scopes["):
             return [("n", st, ("bool", st.kind == "filter"))]
+        if txt.endswith(".operand_depth") and txt.startswith("self.scopes["):
+            return [("n", st, ("lin", st.od))]
         out = []
         for ctl, s, v in self.ev(n["e"], st):
             if ctl != "n":
@@ -337,12 +349,18 @@ class Engine:
                     out.append(("n", s, ("loopbegin", v[1])))
                 elif n["name"] == "break_positions":
                     out.append(("n", s, ("breakvec", v[1])))
+                elif n["name"] == "operand_depth":
+                    out.append(("n", s, ("lin", v[2] if len(v) > 2 and v[2] is not None else Lin(0, {"od(loop)": 1}))))
+                elif n["name"] == "label":
+                    out.append(("n", s, ("opt", "?", ("looplabel",))))
                 else:
                     out.append(("n", s, UNK))
             elif v and v[0] == "scope" and n["name"] == "loop_stack":
                 out.append(("n", s, ("loopstack",)))
             elif v and v[0] == "scope" and n["name"] == "is_filter":
                 out.append(("n", s, ("bool", s.kind == "filter")))
+            elif v and v[0] == "scope" and n["name"] == "operand_depth":
+                out.append(("n", s, ("lin", s.od)))
             else:
                 out.append(("n", s, UNK))
         return out
@@ -400,6 +418,16 @@ class Engine:
                     for s2, c in self.fork(s, "v:" + a[1], self.variants(ty)):
                         out.append(("n", s2, ("bool", (c == H.last(b[1])) == (op == "=="))))
                     continue
+            elif op == "==" and a and b and "looplabel" in (a[0], b[0]):
+                # does this enclosing loop carry the statement's label?  (one fact for the whole search)
+                if s.facts.get("ls_label_found") is False:
+                    out.append(("n", s, ("bool", False)))
+                else:
+                    s1, s2 = s.copy(), s.copy()
+                    s1.facts["ls_label_found"] = True
+                    out.append(("n", s1, ("bool", True)))
+                    out.append(("n", s2, ("bool", False)))
+                continue
             elif op in ("==", "!=") and a and b and a[0] == "ast" and b[0] == "str":
                 for s2, c in self.fork(s, "streq:%s:%s" % (a[1], b[1]), [True, False]):
                     out.append(("n", s2, ("bool", c == (op == "=="))))
@@ -418,7 +446,13 @@ class Engine:
             if ctl != "n":
                 out.append((ctl, s, v))
                 continue
-            if ltxt.endswith(".is_filter") and ltxt.startswith("self.scopes["):
+            if ltxt.endswith(".operand_depth") and ltxt.startswith("self.scopes["):
+                s = s.copy()
+                if v and v[0] == "lin":
+                    s.od = v[1]
+                else:
+                    self.v("operand-depth-bookkeeping", "operand_depth is assigned a value the analysis cannot follow: %s" % H.render(n["r"])[:60], "", n.get("line"))
+            elif ltxt.endswith(".is_filter") and ltxt.startswith("self.scopes["):
                 t = self.truth(v)
                 s = s.copy()
                 s.kind = "filter" if t else s.kind
@@ -429,7 +463,20 @@ class Engine:
         return out
 
     def ev_assignop(self, n, st):
-        return [(c, s, UNIT) if c == "n" else (c, s, v) for c, s, v in self.ev(n["r"], st)]
+        ltxt = H.render(n["l"])
+        out = []
+        for c, s, v in self.ev(n["r"], st):
+            if c != "n":
+                out.append((c, s, v))
+                continue
+            if ltxt.endswith(".operand_depth") and ltxt.startswith("self.scopes["):
+                s = s.copy()
+                if v and v[0] == "lin" and n["op"] in ("+=", "-="):
+                    s.od = s.od + v[1] if n["op"] == "+=" else s.od - v[1]
+                else:
+                    self.v("operand-depth-bookkeeping", "operand_depth %s a value the analysis cannot follow" % n["op"], "", n.get("line"))
+            out.append(("n", s, UNIT))
+        return out
 
     def ev_ret(self, n, st):
         out = []
@@ -576,9 +623,13 @@ class Engine:
         return name
 
     def opt_fork(self, st, key):
+        if key == "?":
+            return [(st.copy(), True), (st.copy(), False)]
         if key.startswith("shape-nonempty:"):
             bk = key.split(":", 1)[1]
             return [(s, not sh[0]) for s, sh in self.fork(st, "shape:" + bk, SHAPES)]
+        if key == "ls_label_found":
+            return self.fork(st, "ls_label_found", [True, False])
         if key == "ls_nonempty":
             return [(s, not e) for s, e in self.fork(st, "ls_empty", [True, False])]
         return self.fork(st, "some:" + key, [True, False])
@@ -657,6 +708,17 @@ class Engine:
         pat = some_arm["pat"]["pats"][0] if some_arm["pat"].get("pats") else some_arm["pat"]["fields"][0]["pat"]
         body = some_arm["body"]
         out = []
+        cn = H.strip(coll_node)
+        if cn.get("k") == "struct" and H.last(cn["res"].get("path")) == "Range":
+            fl = {fd["name"]: fd["e"] for fd in cn["fields"]}
+            for ctl, s, ev_ in self.ev(fl["end"], st):
+                if ctl != "n":
+                    out.append((ctl, s, ev_))
+                    continue
+                st0 = H.strip(fl["start"])
+                zero = st0.get("k") == "lit" and st0.get("v") == 0
+                out.extend(self.run_loop(("range", ev_[1] if ev_ and ev_[0] == "lin" and zero else None), coll_node, pat, body, s))
+            return out
         for ctl, s, coll in self.ev(coll_node, st):
             if ctl != "n":
                 out.append((ctl, s, coll))
@@ -664,9 +726,9 @@ class Engine:
             out.extend(self.run_loop(coll, coll_node, pat, body, s))
         return out
 
-    def elem_value(self, coll, pat):
+    def elem_value(self, coll, pat, idx=None):
         if coll and coll[0] == "enumerate":
-            return ("tuple", [UNK, self.elem_value(coll[1], pat["pats"][1] if pat.get("k") == "tuple" else pat)])
+            return ("tuple", [("lin", idx) if idx is not None else UNK, self.elem_value(coll[1], pat["pats"][1] if pat.get("k") == "tuple" else pat)])
         if coll and coll[0] == "loopstack-iter":
             return ("loopctx", None)
         if pat.get("k") == "tuple":
@@ -699,6 +761,24 @@ class Engine:
             for ctl, s2, v in self.ev(body, s):
                 res.append(("n", s2, UNIT) if ctl in ("n", "cont") else (ctl, s2, v))
             return res
+        if coll and coll[0] == "range" and coll[1] is not None:
+            # `for _ in 0..n`: n iterations of a body with a constant effect
+            s = st.copy()
+            self.bind(pat, UNK, s)
+            ends = [s2 for ctl, s2, v in self.ev(body, s) if ctl in ("n", "cont")]
+            if not ends:
+                return [("n", st, UNIT)]
+            j = self.join(ends)
+            if st.h is not None and j.h is not None:
+                d = j.h - st.h
+                if not d.is_const():
+                    self.v("loop-height", "a counted loop changes the height by a non-constant %s per iteration" % d)
+                j.h = st.h + coll[1].scale(d.c)
+                j.minh = lmin(st.minh, j.h) if d.c < 0 else st.minh
+            j = self.join([st.copy(), j]) if False else j
+            if not (j.last == st.last):
+                j.last = "Unknown" if "Pop" in (j.last, st.last) else j.last
+            return [("n", j, UNIT)]
         # 2. generic collection of unknown length
         lenkey = "len(%s)" % (coll[1] if coll and coll[0] in ("ast", "coll") else H.render(H.strip(coll_node)))
         if coll and coll[0] == "enumerate":
@@ -707,7 +787,7 @@ class Engine:
         exits = []
         for rnd in range(8):
             s = head.copy()
-            self.bind(pat, self.elem_value(coll, pat), s)
+            self.bind(pat, self.elem_value(coll, pat, Lin(0)), s)
             ends = []
             for ctl, s2, v in self.ev(body, s):
                 if ctl in ("n", "cont"):
@@ -724,9 +804,28 @@ class Engine:
                 if not d.is_const():
                     self.v("loop-height", "a loop over %s changes the height by a non-constant %s" % (lenkey, d))
                     break
-                # every iteration adds d: symbolic multiple
+                # every iteration adds d: run the body once more at a generic iteration `i` (height head.h + d·i),
+                # then leave the loop with the symbolic multiple head.h + d·len
+                isym = "i(%s)" % lenkey[4:-1]
+                s = head.copy()
+                s.h = head.h + Lin(0, {isym: d.c})
+                self.bind(pat, self.elem_value(coll, pat, Lin(0, {isym: 1})), s)
+                ends2 = []
+                for ctl, s2, v in self.ev(body, s):
+                    if ctl in ("n", "cont"):
+                        ends2.append(s2)
+                    elif ctl == "brk":
+                        exits.append(s2)
+                    else:
+                        out.append((ctl, s2, v))
+                if ends2 and all(e.h is not None and (e.h - s.h) == d for e in ends2):
+                    ends = ends2
+                else:
+                    self.v("loop-height", "the per-iteration effect of the loop over %s depends on the iteration" % lenkey)
                 j = self.join(ends)
                 j.h = head.h + Lin(0, {lenkey: d.c})
+                if j.od != head.od:
+                    self.v("operand-depth-bookkeeping", "operand_depth is not restored by an iteration of the loop over %s" % lenkey)
                 h0 = head.copy()
                 h0.h = j.h
                 exits.append(h0)
@@ -818,9 +917,11 @@ class Engine:
                     out.append((ctl, s, vs))
                 else:
                     lb = vs[1][1] if len(vs[1]) > 1 else None
+                    dv = vs[1][2] if len(vs[1]) > 2 else None
+                    od = dv[1] if dv and dv[0] == "lin" else None
                     s = s.copy()
-                    s.events = s.events + (("loop-begin", lb[2] if lb and lb[0] == "label" and len(lb) > 2 else None),)
-                    out.append(("n", s, ("loopctx", lb)))
+                    s.events = s.events + (("loop-begin", lb[2] if lb and lb[0] == "label" and len(lb) > 2 else None, None if od is None else od.key()),)
+                    out.append(("n", s, ("loopctx", lb, od)))
             return out
         if cal.endswith("Vec::<T>::new") or cal.endswith("Vec::<T, A>::new") or H.last(cal) in ("new",) and "Vec" in cal:
             return [("n", st, ("phvec", frozenset()))]
@@ -852,6 +953,10 @@ class Engine:
             return [("n", st, rv)]
         if m == "enumerate":
             return [("n", st, ("enumerate", rv))]
+        if r0 == "loopstack-iter" and m in ("find", "rfind"):
+            return [("n", st, ("opt", "ls_label_found", ("loopctx", None, None)))]
+        if r0 == "lin" and m in ("saturating_sub", "wrapping_sub") and args and args[0] and args[0][0] == "lin":
+            return [("n", st, ("lin", rv[1] - args[0][1]))]
         if r0 == "ast":
             key = rv[1]
             if m == "len":
@@ -1008,9 +1113,10 @@ class Engine:
             return [("n", s, UNIT)]
         if name == "enter_scope":
             s = st.copy()
-            s.stack = s.stack + ((s.h, s.last, s.prev, s.landed, s.kind, s.ls, s.facts.get("ls_empty"), s.facts.get("ls_top"), s.pend, s.events, s.minh),)
+            s.stack = s.stack + ((s.h, s.last, s.prev, s.landed, s.kind, s.ls, s.facts.get("ls_empty"), s.facts.get("ls_top"), s.pend, s.events, s.minh, s.od),)
             s.h, s.last, s.prev, s.landed, s.kind, s.ls = Lin(0), "None", "None", False, "fn", 0
             s.minh = Lin(0)
+            s.od = Lin(0)
             s.facts["ls_empty"] = True
             s.facts.pop("ls_top", None)
             s.pend = frozenset()
@@ -1033,8 +1139,9 @@ class Engine:
                 self.v("loop-stack-balance", "scope left with loop_stack depth %+d" % s.ls, "", line)
             if not (lmin(s.minh, Lin(0)) == Lin(0)):
                 self.v("operand-underflow", "code of a %s scope consumes %s operand(s) it did not push (below the frame's base)" % (s.kind, -s.minh), "", line)
-            h, last, prev, landed, kind, ls, lse, lst, pend, events, minh = s.stack[-1]
+            h, last, prev, landed, kind, ls, lse, lst, pend, events, minh, od = s.stack[-1]
             s.minh = minh
+            s.od = od
             s.stack = s.stack[:-1]
             s.h, s.last, s.prev, s.landed, s.kind, s.ls, s.pend, s.events = h, last, prev, landed, kind, ls, pend, events
             s.facts.pop("ls_empty", None)
@@ -1193,10 +1300,7 @@ class Engine:
                 s.h = s.h + Lin(eff)
             s.last, s.prev, s.landed = "Other", "Unknown", True
             s.order = s.order + ((key or H.render(argnodes[0]), cls),)
-            if not s.stack:
-                s.events = s.events + (("child", "expr", off),)
-            else:
-                s.events = s.events + (("child", "expr", off),)
+            s.events = s.events + (("child", "expr", off, st.od.key()),)
             return [("n", s, ("res_ok", UNIT))]
         if name == "compile_block_statement":
             if key is None:
@@ -1209,13 +1313,13 @@ class Engine:
                     s2.last, s2.prev, s2.landed = "Pop", ("Other" if is_expr else "Unknown"), (False if is_expr else True)
                 elif eff_last == "Other":
                     s2.last, s2.prev, s2.landed = "Other", "Unknown", True
-                s2.events = s2.events + (("child", "block", off),)
+                s2.events = s2.events + (("child", "block", off, st.od.key()),)
                 s2.order = s2.order + ((key, "block"),)
                 out.append(("n", s2, ("res_ok", UNIT)))
             return out
         if name == "compile_statement":
             s.last, s.prev, s.landed = "Unknown", "Unknown", True
-            s.events = s.events + (("child", "stmt", off),)
+            s.events = s.events + (("child", "stmt", off, st.od.key()),)
             return [("n", s, ("res_ok", UNIT))]
         raise Unsupported("recursive call of %s" % name)
 
